@@ -381,9 +381,10 @@ def parts(ctx):
     A(dict(name="sorts-d2", profile=sorts_profile, depth=2, shards=8, dom={INT: (0, 1)}))
     if not q:
         A(dict(name="names-d3", profile=names_profile, depth=3, shards=64, dom={INT: (0, 1)}, max_new=1,
-               mid_ops=lambda o: o.name in ("and", "not", "le", "plus", "dup", "forall_w")))
+               mid_ops=lambda o: o.name in ("and", "not", "le", "dup", "forall_w"),
+               top_ops=lambda o: o.name in ("and", "not", "dup", "forall_w")))
         A(dict(name="quant-d3", profile=P.quant_profile, depth=3, shards=64, dom={INT: (0, 1)}, max_new=1,
-               mid_ops=lambda o: o.name in ("and", "not", "le", "bveq1", "forall_a", "exists_u", "forall_x", "exists_ab")))
+               mid_ops=lambda o: o.name in ("and", "not", "le", "forall_a", "exists_u", "forall_x", "exists_ab")))
     return ps
 
 
